@@ -183,6 +183,40 @@ def apalache_inductive(size: int, rule: str, timeout=1500):
     return res
 
 
+def tlaps_check():
+    import re  # noqa: PLC0415
+    import shutil  # noqa: PLC0415
+    import subprocess  # noqa: PLC0415
+
+    d = os.path.join(env.workdir(), "tlaps")
+    src = open(os.path.join(env.SPEC, "proofs", "LookupAbs.tla")).read()
+    prf = open(os.path.join(env.SPEC, "proofs", "LookupAbsProofs.tla")).read()
+    bad = src.replace("ref == IF t = 0 THEN rLastU + 1 ELSE t", "ref == IF t = 0 THEN rLastU + 2 ELSE t")
+    if bad.count("rLastU + 2") != 1:
+        env.machinery_failure("C05: the non-vacuity variant of LookupAbs could not be made")
+    out = {}
+    for name, text in (("good", src), ("bad", bad)):
+        dd = os.path.join(d, name)
+        os.makedirs(dd, exist_ok=True)
+        with open(os.path.join(dd, "LookupAbs.tla"), "w") as f:
+            f.write(text)
+        with open(os.path.join(dd, "LookupAbsProofs.tla"), "w") as f:
+            f.write(prf)
+        try:
+            p = subprocess.run(["tlapm", "--nofp", "LookupAbsProofs.tla"], cwd=dd, capture_output=True, text=True, timeout=900)
+        except (OSError, subprocess.TimeoutExpired) as ex:
+            env.machinery_failure(f"C05: tlapm could not be run: {ex}")
+        txt = p.stdout + p.stderr
+        m = re.search(r"All (\d+) obligations? proved", txt)
+        out[name] = int(m.group(1)) if m else 0
+        if name == "good" and not m:
+            env.machinery_failure("C05: TLAPS no longer proves spec/proofs/LookupAbsProofs.tla:\n" + "\n".join(l for l in txt.splitlines() if "ERROR" in l or "obligation" in l)[:600])
+        if name == "bad" and m:
+            env.machinery_failure("C05: TLAPS proves the deliberately wrong variant of LookupAbs: the theorem is vacuous")
+    shutil.rmtree(d, ignore_errors=True)
+    return {"obligations_proved": out["good"], "wrong_variant_refused": True}
+
+
 def main(tier: str) -> int:
     run = report.Run("C05", "model_checking", tier)
     rnd = random.Random(env.seed())
@@ -203,9 +237,12 @@ def main(tier: str) -> int:
         size, rule = job
         keys = ", ".join(str(k) for k in (range(0, size + 2) if rule == "prefix" else range(1, size + 3)))
         text = f"---- MODULE MCKeys ----\nEXTENDS PyLookupKeys\nKS == {{{keys}}}\n====\n"
-        cfg = f'SPECIFICATION Spec\nCONSTANTS Size = {size} Rule = "{rule}" Keys <- KS\nINVARIANT AllResolve\nPROPERTY Refines\nCHECK_DEADLOCK FALSE\n'
+        cfg = f'SPECIFICATION Spec\nCONSTANTS Size = {size} Rule = "{rule}" Keys <- KS\nINVARIANT AllResolve\nPROPERTY Refines\nPROPERTY ImplementsProved\nCHECK_DEADLOCK FALSE\n'
         return job, tlc.run("MCKeys", cfg, module_text=text, workers=2, timeout=900)
 
+    # the abstraction every table pair with ANY eviction choice implements is proved safe by TLAPS for every size (spec/proofs/LookupAbs.tla);
+    # the proof is re-checked here, and a deliberately wrong variant (name rule: 0 = last + 2) must be refused
+    proof = tlaps_check()
     t0 = time.time()
     apa_jobs = [(8, "prefix")] if tier == "quick" else [(8, r_) for r_ in RULES] + [(16, r_) for r_ in RULES]
     apa_pool = ThreadPoolExecutor(6)
@@ -307,6 +344,7 @@ def main(tier: str) -> int:
         "apalache_inductive_invariant": apa,
         "samples": samples, "exhaustive": True, "per_table": table, "long_history_steps": steps,
         "tlc_wall_s": round(tlc_wall, 1), "quotient_refinement_states": ref_states,
-        "explanation": "spec/PyLookupKeys.tla (concrete keys) refines spec/PyLookup.tla (index-canonical quotient): checked by TLC as a refinement mapping; TLC closes PyLookup for every size/rule (closure under every next key = all histories); the same graph is walked on real "
+        "tlaps": proof,
+        "explanation": "spec/proofs/LookupAbs.tla: TLAPS proves Mirrored / Bounded / Resolves for EVERY table size, key set and eviction choice (LookupAbsProofs); TLC checks that spec/PyLookupKeys.tla implements it (refinement mapping); spec/PyLookupKeys.tla (concrete keys) refines spec/PyLookup.tla (index-canonical quotient): checked by TLC as a refinement mapping; TLC closes PyLookup for every size/rule (closure under every next key = all histories); the same graph is walked on real "
                        "LookupEncoder/LookupDecoder objects; traces_validated_against_impl counts real transitions, each judged by the table contract",
     })
